@@ -2,6 +2,7 @@ package sim
 
 import (
 	"encoding/json"
+	"hash/crc32"
 	"fmt"
 	"reflect"
 	"sort"
@@ -127,6 +128,22 @@ func (w *World) Project() map[string]interface{} {
 		rom["succeeded"] = succ
 		sub := ro.Status.GetSubStatus()
 		rom["hasSub"] = sub != nil
+		// aux: digest of the status fields nothing else projects (messages, mirrored counters); they decide
+		// whether a reconcile writes the status at all and thereby whether it re-enqueues itself
+		aux := ro.Status.Message
+		if ro.Status.CanaryStatus != nil {
+			aux += fmt.Sprintf("|%s|%d|%d", ro.Status.CanaryStatus.Message, ro.Status.CanaryStatus.CanaryReplicas, ro.Status.CanaryStatus.CanaryReadyReplicas)
+		}
+		if ro.Status.BlueGreenStatus != nil {
+			aux += fmt.Sprintf("|%s|%d|%d", ro.Status.BlueGreenStatus.Message, ro.Status.BlueGreenStatus.UpdatedReplicas, ro.Status.BlueGreenStatus.UpdatedReadyReplicas)
+		}
+		for _, c := range ro.Status.Conditions {
+			aux += "|" + string(c.Type) + "=" + c.Message
+		}
+		rom["aux"] = ""
+		if w.Cfg.Queue {
+			rom["aux"] = fmt.Sprintf("%08x", crc32.ChecksumIEEE([]byte(aux)))
+		}
 		if sub != nil {
 			rom["step"] = int(sub.CurrentStepIndex)
 			rom["state"] = string(sub.CurrentStepState)
@@ -149,7 +166,7 @@ func (w *World) Project() map[string]interface{} {
 		for _, f := range []string{"deleting", "finalizer", "condFresh", "hasSub", "hashOk", "hashSet", "fresh"} {
 			rom[f] = false
 		}
-		for _, f := range []string{"phase", "reason", "treason", "succeeded", "state", "fstep", "rid"} {
+		for _, f := range []string{"phase", "reason", "treason", "succeeded", "state", "fstep", "rid", "aux"} {
 			rom[f] = ""
 		}
 		for _, f := range []string{"step", "next", "canaryRev", "stableRev", "podHash", "thrVal"} {
@@ -176,6 +193,9 @@ func (w *World) Project() map[string]interface{} {
 	rs := append([]int{}, w.Ghost.ReadySteps...)
 	out["ghost"] = map[string]interface{}{"readySteps": rs, "created": w.Ghost.Created, "origOk": origOk, "brEver": w.Ghost.BrEver, "jumpBack": w.Ghost.JumpBack, "lateChange": w.Ghost.LateChange}
 	out["quiet"] = w.WL.Quiescent(w) && !w.gcPending()
+	// wake-up state of the two work queues; stuck: nothing will ever run again without a user action
+	stuck := !w.Q.RoPending && !w.Q.BrPending && !w.Q.RoTimer && !w.Q.BrTimer && w.WL.Quiescent(w) && !w.gcPending() && !w.tickUseful()
+	out["q"] = map[string]interface{}{"on": w.Cfg.Queue, "roP": w.Q.RoPending, "brP": w.Q.BrPending, "roT": w.Q.RoTimer, "brT": w.Q.BrTimer, "stuck": w.Cfg.Queue && stuck}
 	return out
 }
 
